@@ -4,6 +4,9 @@ import (
 	"bytes"
 	"fmt"
 	"io"
+	"os"
+	"path/filepath"
+	"strings"
 
 	"github.com/ulikunitz/xz"
 	"github.com/ulikunitz/xz/lzma"
@@ -12,6 +15,7 @@ import (
 	"verif/internal/gen"
 	"verif/internal/mon"
 	"verif/internal/prng"
+	"verif/internal/ref"
 )
 
 func init() { register("C13", "exploration", checkC13) }
@@ -38,6 +42,32 @@ func c13Streams(c *ev.Ctx) []tstream {
 	d4 := gen.Data(r, "lowent", 30000)
 	multi := append(append(libWriteXZ(xz.WriterConfig{DictCap: 4096, BlockSize: 7000}, d4), make([]byte, 8)...), libWriteXZ(xz.WriterConfig{DictCap: 4096, CheckSum: xz.SHA256}, d1[:20000])...)
 	streams = append(streams, tstream{ID: "bigmulti", Format: "xz", B: multi, Content: append(append([]byte{}, d4...), d1[:20000]...)})
+	// foreign streams: xz-utils files with a 4 KiB dictionary and 64 KiB uncompressed chunks
+	// (the library's own writer never emits a raw chunk larger than its dictionary)
+	for _, n := range []string{"xz/big-d4k.xz", "xz/big-d64k-bt2.xz", "xz/mt-sized.xz", "xz/blocks-mixed.xz", "xz/concat-pad.xz", "lzma/big.lzma", "lzma/lclppb-042.lzma"} {
+		b, err := os.ReadFile(filepath.Join(c.Dir, "corpus", n))
+		if err != nil {
+			continue
+		}
+		var content []byte
+		f := "xz"
+		if strings.HasPrefix(n, "lzma/") {
+			f = "lzma"
+			content, _, err = ref.DecodeAlone(b, 0)
+		} else {
+			content, _, err = ref.DecodeXZ(b, 0)
+		}
+		if err == nil {
+			streams = append(streams, tstream{ID: "corpus:" + n, Format: f, B: b, Content: content})
+		}
+	}
+	for i := 0; i < 3; i++ {
+		rr := prng.New(c.Seed, 132, uint64(i))
+		l2, content, _ := ref.GenLZMA2(rr, ref.LZMA2Plan{DictSize: 4096, NChunks: 6, OpsPer: 400, BigChunk: true})
+		streams = append(streams, tstream{ID: fmt.Sprintf("genraw%d", i), Format: "lzma2", B: l2, Content: content, Dict: 4096})
+		xzs := ref.BuildXZ(ref.CheckCRC64, []ref.BlockSpec{{LZMA2: l2, Content: content, DictCode: 0}})
+		streams = append(streams, tstream{ID: fmt.Sprintf("genrawxz%d", i), Format: "xz", B: xzs, Content: content})
+	}
 	return streams
 }
 
